@@ -9,10 +9,15 @@
  *       strings, pointers (numbered in visiting order, so the rendering does not depend on
  *       addresses), maps (sorted by key), slices INCLUDING THEIR SPARE CAPACITY (the
  *       elements between len and cap: an append onto a shared backing array shows there),
- *       func values by symbol name.  The closures behind which Compile hides the compiled
- *       record (runnablePacker.wrapRunnableCtx, compileAnyGraph, toGenericRunnable,
- *       runner.toComposableRunnable, the input/output key wrappers) are followed through
- *       their captured variables, so the *runner of the graph and of every nested graph is
+ *       func values by symbol name.  Compile hides the compiled record behind closures
+ *       (runnablePacker.wrapRunnableCtx -> compileAnyGraph / toGenericRunnable ->
+ *       *composableRunnable -> runner.toComposableRunnable -> *runner).  They are followed by
+ *       SEARCHING the first captured words of exactly those closures (recognised by symbol
+ *       name) for a pointer that passes a structural validation of the expected type (itab
+ *       words of its reflect.Type fields, func fields that are entry points of functions);
+ *       the search reads raw words and never dereferences an unvalidated one, so a tree in
+ *       which those closures capture something else makes the record unreachable (reported),
+ *       not the process crash.  So the *runner of the graph and of every nested graph is
  *       part of the rendering.  Synchronisation primitives (sync, sync/atomic) are skipped.
  *       Two snapshots of the same object taken before and after it has been used must be
  *       equal: a run owns everything it mutates.
@@ -39,34 +44,174 @@ import (
 
 // ---------------------------------------------------------------------------- closures
 
-type verifC09Cap struct {
-	fn  bool         // the captured variable is a func value
-	typ reflect.Type // otherwise: its (pointer) type
+// verifC09Raw reads one word without pointer or race instrumentation. When the layout of a
+// closure is not the expected one the word may lie outside the object: what is read is only
+// compared, and dereferenced only after validation.
+//
+//go:nocheckptr
+//go:norace
+func verifC09Raw(p uintptr, off uintptr) uintptr {
+	a := p + off
+	return *(*uintptr)(verifC09Ptr(&a))
 }
 
-// verifC09Closures: for the closures that stand between a public Runnable and the compiled
-// record, the captured variables in the order the compiler lays them out (after the code
-// pointer).  Matched by substring of the symbol name.  Checked by VerifC09SelfTest.
-var verifC09Closures = []struct {
-	name string
-	caps []verifC09Cap
-}{
-	{".wrapRunnableCtx.func", []verifC09Cap{{fn: true}, {fn: true}}},
-	{"compose.compileAnyGraph[", []verifC09Cap{{typ: reflect.TypeOf((*composableRunnable)(nil))}}},
-	{"compose.toGenericRunnable[", []verifC09Cap{{typ: reflect.TypeOf((*composableRunnable)(nil))}}},
-	{"(*runner).toComposableRunnable.func", []verifC09Cap{{typ: reflect.TypeOf((*runner)(nil))}}},
+// verifC09Ptr reinterprets the address held in *u as a pointer (kept as a uintptr until then, so
+// that the garbage collector never sees an unvalidated word in a pointer slot).
+//
+//go:nocheckptr
+func verifC09Ptr(u *uintptr) unsafe.Pointer { return *(*unsafe.Pointer)(unsafe.Pointer(u)) }
+
+// verifC09Probe runs f; a fault on an unmapped address makes it false.
+func verifC09Probe(f func() bool) (ok bool) {
+	defer func() {
+		if recover() != nil {
+			ok = false
+		}
+	}()
+	return f()
+}
+
+func verifC09Plausible(p uintptr) bool { return p >= 1<<16 && p%8 == 0 }
+
+// verifC09FuncvalName: p points to a func value (its first word is the entry point of a function).
+func verifC09FuncvalName(p uintptr) (name string, ok bool) {
+	if !verifC09Plausible(p) {
+		return "", false
+	}
+	ok = verifC09Probe(func() bool {
+		pc := verifC09Raw(p, 0)
+		f := runtime.FuncForPC(pc)
+		if f == nil || f.Entry() != pc {
+			return false
+		}
+		name = f.Name()
+		return true
+	})
+	return name, ok
 }
 
 func verifC09FuncName(fv unsafe.Pointer) string {
 	if fv == nil {
 		return "nil"
 	}
-	pc := *(*uintptr)(fv)
-	f := runtime.FuncForPC(pc)
-	if f == nil {
-		return "?"
+	if n, ok := verifC09FuncvalName(uintptr(fv)); ok {
+		return n
 	}
-	return f.Name()
+	return "?"
+}
+
+// the itab word of a reflect.Type interface value holding the one implementation there is
+var verifC09TypeItab = func() uintptr {
+	t := reflect.TypeOf(0)
+	return *(*uintptr)(unsafe.Pointer(&t))
+}()
+
+func verifC09TypeWordOK(p, off uintptr, mayBeNil bool) bool {
+	w := verifC09Raw(p, off)
+	return w == verifC09TypeItab || (mayBeNil && w == 0)
+}
+
+func verifC09FuncWordOK(p, off uintptr, mayBeNil bool) bool {
+	w := verifC09Raw(p, off)
+	if w == 0 {
+		return mayBeNil
+	}
+	_, ok := verifC09FuncvalName(w)
+	return ok
+}
+
+// verifC09ValidCR: p passes for a *composableRunnable of a compiled graph.
+func verifC09ValidCR(p uintptr) bool {
+	if !verifC09Plausible(p) {
+		return false
+	}
+	var z composableRunnable
+	return verifC09Probe(func() bool {
+		return verifC09FuncWordOK(p, unsafe.Offsetof(z.i), false) &&
+			verifC09FuncWordOK(p, unsafe.Offsetof(z.t), false) &&
+			verifC09FuncWordOK(p, unsafe.Offsetof(z.checkOption), true) &&
+			verifC09TypeWordOK(p, unsafe.Offsetof(z.inputType), false) &&
+			verifC09TypeWordOK(p, unsafe.Offsetof(z.outputType), false) &&
+			verifC09TypeWordOK(p, unsafe.Offsetof(z.optionType), true) &&
+			verifC09Plausible(verifC09Raw(p, unsafe.Offsetof(z.genericHelper))) &&
+			verifC09Raw(p, unsafe.Offsetof(z.isPassthrough))&0xff <= 1
+	})
+}
+
+// verifC09ValidRunner: p passes for a *runner.
+func verifC09ValidRunner(p uintptr) bool {
+	if !verifC09Plausible(p) {
+		return false
+	}
+	var z runner
+	var gh genericHelper
+	return verifC09Probe(func() bool {
+		h := verifC09Raw(p, unsafe.Offsetof(z.genericHelper))
+		return verifC09TypeWordOK(p, unsafe.Offsetof(z.inputType), false) &&
+			verifC09TypeWordOK(p, unsafe.Offsetof(z.outputType), false) &&
+			verifC09Plausible(verifC09Raw(p, unsafe.Offsetof(z.chanSubscribeTo))) &&
+			verifC09Plausible(verifC09Raw(p, unsafe.Offsetof(z.inputChannels))) &&
+			verifC09FuncWordOK(p, unsafe.Offsetof(z.chanBuilder), true) &&
+			verifC09FuncWordOK(p, unsafe.Offsetof(z.runCtx), true) &&
+			verifC09Raw(p, unsafe.Offsetof(z.eager))&0xff <= 1 &&
+			verifC09Plausible(h) &&
+			verifC09FuncWordOK(h, unsafe.Offsetof(gh.inputStreamFilter), true) &&
+			verifC09FuncWordOK(h, unsafe.Offsetof(gh.inputZeroValue), true)
+	})
+}
+
+const verifC09ScanWords = 4
+
+// verifC09FindCapture searches the captured words of the closure fv for one accepted by valid.
+func verifC09FindCapture(fv uintptr, valid func(uintptr) bool) uintptr {
+	for i := uintptr(1); i <= verifC09ScanWords; i++ {
+		var w uintptr
+		if !verifC09Probe(func() bool { w = verifC09Raw(fv, 8*i); return true }) {
+			return 0
+		}
+		if valid(w) {
+			return w
+		}
+	}
+	return 0
+}
+
+// verifC09RunnerBehind: the *runner captured by the closures runner.toComposableRunnable gave cr.
+func verifC09RunnerBehind(cr *composableRunnable) *runner {
+	for _, f := range []unsafe.Pointer{
+		*(*unsafe.Pointer)(unsafe.Pointer(&cr.checkOption)), *(*unsafe.Pointer)(unsafe.Pointer(&cr.i)), *(*unsafe.Pointer)(unsafe.Pointer(&cr.t))} {
+		name, ok := verifC09FuncvalName(uintptr(f))
+		if !ok || !strings.Contains(name, "(*runner).toComposableRunnable.func") {
+			continue
+		}
+		if p := verifC09FindCapture(uintptr(f), verifC09ValidRunner); p != 0 {
+			return (*runner)(verifC09Ptr(&p))
+		}
+	}
+	return nil
+}
+
+// verifC09CRBehind: fv is one of the funcs of the runnablePacker Compile returned
+// (wrapRunnableCtx closure over the ctx wrapper of compileAnyGraph and a toGenericRunnable closure).
+func verifC09CRBehind(fv uintptr) *composableRunnable {
+	name, ok := verifC09FuncvalName(fv)
+	if !ok || !strings.Contains(name, ".wrapRunnableCtx.func") {
+		return nil
+	}
+	for i := uintptr(1); i <= verifC09ScanWords; i++ {
+		var w uintptr
+		if !verifC09Probe(func() bool { w = verifC09Raw(fv, 8*i); return true }) {
+			return nil
+		}
+		inner, ok := verifC09FuncvalName(w)
+		if !ok || !(strings.Contains(inner, "compose.compileAnyGraph[") || strings.Contains(inner, "compose.toGenericRunnable[")) {
+			continue
+		}
+		if p := verifC09FindCapture(w, verifC09ValidCR); p != 0 {
+			return (*composableRunnable)(verifC09Ptr(&p))
+		}
+	}
+	return nil
 }
 
 // ---------------------------------------------------------------------------- walker
@@ -112,6 +257,7 @@ var (
 	verifC09OpaqueType = reflect.TypeOf((*verifC09Opaque)(nil)).Elem()
 	verifC09TypeOfType = reflect.TypeOf((*reflect.Type)(nil)).Elem()
 	verifC09RtypePtr   = reflect.TypeOf(reflect.TypeOf(0))
+	verifC09CRType     = reflect.TypeOf(composableRunnable{})
 )
 
 // addressable returns v itself when it can be addressed, otherwise a copy that can.
@@ -124,38 +270,17 @@ func verifC09Addressable(v reflect.Value) reflect.Value {
 	return nv
 }
 
-func (w *verifC09Walker) walkFunc(path string, fv unsafe.Pointer, depth int) {
+func (w *verifC09Walker) walkFunc(path string, fv unsafe.Pointer) {
 	if fv == nil {
 		w.emit(path, "func nil")
 		return
 	}
-	name := verifC09FuncName(fv)
 	id, seen := w.visit(fv, nil, 0)
 	if seen {
 		w.emit(path, fmt.Sprintf("func ->#%d", id))
 		return
 	}
-	w.emit(path, fmt.Sprintf("func #%d %s", id, name))
-	for _, c := range verifC09Closures {
-		if !strings.Contains(name, c.name) {
-			continue
-		}
-		for i, cp := range c.caps {
-			word := *(*unsafe.Pointer)(unsafe.Add(fv, 8*(i+1)))
-			sub := fmt.Sprintf("%s{%d}", path, i)
-			if cp.fn {
-				w.walkFunc(sub, word, depth+1)
-			} else {
-				if word == nil {
-					w.emit(sub, "nil")
-					continue
-				}
-				pv := reflect.NewAt(cp.typ.Elem(), word)
-				w.walk(sub, pv, depth+1)
-			}
-		}
-		return
-	}
+	w.emit(path, fmt.Sprintf("func #%d %s", id, verifC09FuncName(fv)))
 }
 
 func (w *verifC09Walker) walk(path string, v reflect.Value, depth int) {
@@ -207,7 +332,7 @@ func (w *verifC09Walker) walk(path string, v reflect.Value, depth int) {
 		}
 		av := verifC09Addressable(v)
 		fv := *(*unsafe.Pointer)(unsafe.Pointer(av.UnsafeAddr()))
-		w.walkFunc(path, fv, depth)
+		w.walkFunc(path, fv)
 	case reflect.Ptr:
 		if v.IsNil() {
 			w.emit(path, "nil")
@@ -252,6 +377,25 @@ func (w *verifC09Walker) walk(path string, v reflect.Value, depth int) {
 			f := av.Field(i)
 			f = reflect.NewAt(f.Type(), unsafe.Pointer(f.UnsafeAddr())).Elem()
 			w.walk(path+"."+t.Field(i).Name, f, depth+1)
+		}
+		// what Compile hides behind the closures held by this struct
+		if t == verifC09CRType {
+			cr := (*composableRunnable)(unsafe.Pointer(av.UnsafeAddr()))
+			if r := verifC09RunnerBehind(cr); r != nil {
+				w.walk(path+".runner", reflect.ValueOf(r), depth+1)
+			}
+		} else if strings.HasPrefix(t.String(), "compose.runnablePacker[") {
+			for i := 0; i < av.NumField(); i++ {
+				f := av.Field(i)
+				if f.Kind() != reflect.Func || f.IsNil() {
+					continue
+				}
+				fv := *(*uintptr)(unsafe.Pointer(f.UnsafeAddr()))
+				if cr := verifC09CRBehind(fv); cr != nil {
+					w.walk(path+".compiled", reflect.ValueOf(cr), depth+1)
+					break
+				}
+			}
 		}
 	case reflect.Array:
 		av := verifC09Addressable(v)
